@@ -201,3 +201,12 @@ func (c *Chooser) Run() *Run { return c.run }
 // Owned reports whether this execution is counted by this shard (the root execution is run by
 // every shard but belongs to shard 0).
 func (c *Chooser) Owned() bool { return c.owned }
+
+// RunLenient executes a sequence of choices without requiring that all of them are consumed
+// (used for twin executions that may stop early).
+func (e *Explorer) RunLenient(prefix []int) *Run {
+	r := &Run{Prefix: prefix, Cut: -1}
+	c := &Chooser{run: r, bound: 1 << 30, owned: true}
+	e.Exec(c)
+	return r
+}
